@@ -29,9 +29,12 @@ import (
 	"berty.tech/weshnet/v2/pkg/secretstore"
 )
 
-func vfMmSeed(s string) []byte   { return []byte("seed-" + s + "-0123456789abcdef0123456789") }
-func vfMmTopic(t string) string  { return "/orbitdb/verif/" + t }
-func vfMmKey(t, s string) []byte { h := sha256.Sum256(append([]byte(vfMmTopic(t)+"|"), vfMmSeed(s)...)); return h[:] }
+func vfMmSeed(s string) []byte  { return []byte("seed-" + s + "-0123456789abcdef0123456789") }
+func vfMmTopic(t string) string { return "/orbitdb/verif/" + t }
+func vfMmKey(t, s string) []byte {
+	h := sha256.Sum256(append([]byte(vfMmTopic(t)+"|"), vfMmSeed(s)...))
+	return h[:]
+}
 
 type vfMmTri struct {
 	T, S string
